@@ -268,6 +268,18 @@ class TimeoutM(Model):
         return self
 
 
+class JoinAllM(Model):
+    """futures::future::join_all / try_join_all over a concrete list of futures"""
+
+    def __init__(self, futs, try_):
+        self.cells = [Cell(f, 'join-all-%d' % i) for i, f in enumerate(futs)]
+        self.outs = [None] * len(futs)
+        self.try_ = try_
+
+    def ite(self, c, o):
+        return self
+
+
 class SharedM(Model):
     """futures::future::Shared<F>: clones poll one underlying future; its output is kept for all of them"""
 
@@ -282,6 +294,27 @@ class SharedM(Model):
 def poll_future(ip, loc):
     """Future::poll on whatever lives at loc"""
     v = read_loc(loc)
+    if isinstance(v, JoinAllM):
+        from models_coll import Seq
+        pending = False
+        for i, c in enumerate(v.cells):
+            if v.outs[i] is not None:
+                continue
+            r = yield from poll_future(ip, Loc(c))
+            if r.discr != 0:
+                pending = True
+                continue
+            o = r.payload[0][0]
+            if v.try_:
+                from models_core import variant_of
+                if variant_of(ip, o) == 1:
+                    return ready(o)                       # the first error ends the whole join
+                o = o.payload[0][0]
+            v.outs[i] = (o,)
+        if pending:
+            return PENDING
+        seq = Seq([x[0] for x in v.outs], len(v.outs), 'vec')
+        return ready(ok(seq) if v.try_ else seq)
     if isinstance(v, TimeoutM):
         r = yield from poll_future(ip, Loc(v.inner))
         if r.discr == 0:
@@ -478,6 +511,19 @@ def _install_base(ctx):
     def tokio_spawn(ip, pc, args, dt):
         ip.path.effect('spawn', args[0])
         return Opaque('JoinHandle')
+
+    @M.reg('future::try_join_all', 'try_join_all::try_join_all', 'future::join_all', 'join_all::join_all', 'try_join_all', 'join_all')
+    def join_all(ip, pc, args, dt):
+        from models_coll import as_window, iter_next
+        from models_core import variant_of
+        it = as_window(ip, args[0])
+        futs = []
+        for _ in range(ip.unroll + 2):
+            it, o = yield from iter_next(ip, it)
+            if variant_of(ip, o) == 0:
+                return JoinAllM(futs, pc['method'] == 'try_join_all')
+            futs.append(o.payload[1][0])
+        raise OutOfBound('join_all unrolling')
 
     @M.reg('time::timeout', 'tokio::time::timeout', 'timeout::timeout')
     def time_timeout(ip, pc, args, dt):
